@@ -130,6 +130,7 @@ func (cr *CheckRun) PrepareEmitted(bin string, ce CorpusEntry, expectGenError bo
 		job.PF = NewParamsFamily(em, job.RF)
 		job.PF.Install()
 	}
+	InstallAuthFamilies(em)
 	InstallResponderContracts(em)
 	InstallEnvContracts(em)
 	cr.mu.Lock()
@@ -214,7 +215,11 @@ func (cr *CheckRun) RunEntries(bin string, entries []CorpusEntry, expectGenError
 }
 
 func routingSel(name string) bool {
-	return name == "splitPath" || strings.HasPrefix(name, "(*API).route") || name == "(*API).ServeHTTP"
+	if name == "splitPath" || strings.HasPrefix(name, "(*API).route") || name == "(*API).ServeHTTP" {
+		return true
+	}
+	// the security wrapper and the authenticators (C11)
+	return strings.HasPrefix(name, "authMiddlewareOr") || name == "middlewares" || name == "(MiddlewareFunc).Middleware" || (strings.HasPrefix(name, "(Security") && strings.HasSuffix(name, ".Auth"))
 }
 
 // CheckRoutingFamily is shared by C03, C11 (route part), C16, C17 and the
